@@ -552,6 +552,10 @@ def distinct_values(rng, names):
             out.append(pool.pop())
         else:
             out.append(gen.gen_value(rng))
+    # boundary (R5-C17, C17-m2): one declared name is assigned exactly 0.0 / 1.0 -- a falsy value must still be assigned
+    idx = [k for k, n in enumerate(names) if n.split("_")[-1] not in ("a", "b")]
+    if idx and rng.random() < 0.35:
+        out[rng.choice(idx)] = rng.choice([0.0, 0.0, 1.0])
     return out
 
 
